@@ -370,3 +370,60 @@ def walk_api(root, path=()):
                 yield from walk_api(item, path + (raw, i))
         else:
             yield from walk_api(v, path + (raw,))
+
+
+def _canon_read(v, depth=0):
+    if isinstance(v, base.RawModel):
+        try:
+            return ('node', type(v).__name__, pr(v))
+        except Exception as e:   # a detached or broken node: still a stable description
+            return ('node-unprintable', type(v).__name__, type(e).__name__)
+    if isinstance(v, (str, bytes, int, float, bool, type(None))):
+        return repr(v)
+    if hasattr(v, 'keys') and hasattr(v, '__getitem__') and depth < 2:
+        try:
+            return ('map', [(repr(k), _canon_read(v[k], depth + 1)) for k in list(v.keys())])
+        except Exception as e:
+            return ('map-raises', type(e).__name__)
+    if hasattr(v, '__iter__') and hasattr(v, '__len__') and depth < 2:
+        try:
+            return ('seq', [_canon_read(x, depth + 1) for x in list(v)])
+        except Exception as e:
+            return ('seq-raises', type(e).__name__)
+    return repr(v)
+
+
+_PUBLIC_CACHE = {}
+
+
+def public_props(cls):
+    """Names of the public data attributes (descriptors with __get__ that are not plain methods) of a model class."""
+    r = _PUBLIC_CACHE.get(cls)
+    if r is None:
+        r = []
+        for name in dir(cls):
+            if name.startswith('_') or name in ('token_store', 'tokens', 'first_token', 'last_token', 'store_handle', 'size') or 'spacing_' in name:   # spacing is about the surroundings, not the model
+                continue
+            a = None
+            for k in cls.__mro__:
+                if name in k.__dict__:
+                    a = k.__dict__[name]
+                    break
+            if a is None or isinstance(a, (staticmethod, classmethod)) or callable(a) and not hasattr(a, '__set__'):
+                continue
+            if hasattr(a, '__get__') and not isinstance(a, type):
+                r.append(name)
+        _PUBLIC_CACHE[cls] = r
+    return r
+
+
+def public_reads(m):
+    """{name: canonical description of what the public attribute reads now} (values, nodes as printed text, views and
+    mappings element by element).  Reading is a non-edit (C04); it primes every cached view of the model."""
+    out = {}
+    for name in public_props(type(m)):
+        try:
+            out[name] = _canon_read(getattr(m, name))
+        except Exception as e:
+            out[name] = ('raises', type(e).__name__)
+    return out
